@@ -32,7 +32,7 @@ class Shard(threading.Thread):
 
     def __init__(self, binary, prop, base_args, start, stop, stride, profile, timeout, work, out, wrapper=None, extra_env=None, ctl=None):
         super().__init__(daemon=True)
-        self.ctl = ctl if ctl is not None else {"hangs": 0, "abort": threading.Event(), "max_hangs": 3}
+        self.ctl = ctl if ctl is not None else {"hangs": 0, "abort": threading.Event(), "max_hangs": 5}
         self.binary, self.prop, self.base_args = binary, prop, base_args
         self.next_k, self.stop, self.stride = start, stop, stride
         self.profile, self.timeout, self.work, self.out = profile, timeout, work, out
@@ -147,7 +147,7 @@ def run_batch(binary, prop, tier, seed, profile, total, jobs=None, timeout=300, 
     work = mkwork(f"{prop}-{profile}")
     out = queue.Queue()
     base = ["--seed", str(seed), "--tier", tier] + (extra_args or [])
-    ctl = {"hangs": 0, "abort": threading.Event(), "max_hangs": 3}
+    ctl = {"hangs": 0, "abort": threading.Event(), "max_hangs": 5}
     shards = [Shard(binary, prop, base, first + i, total, jobs, profile, timeout, work, out, wrapper, extra_env, ctl)
               for i in range(jobs)]
     for s in shards:
